@@ -126,6 +126,29 @@ def run_case(ctx, name, params):
                     c = o.mutate(list(p1), it)
                     if not judge_children(ctx, op, [c], bxs, n, wit):
                         return
+            # the declared box is changed in place (the usual "zoom in" refinement) and the SAME operator object is used again:
+            # children must respect the box that is declared now
+            if r.random() < 0.5:
+                for q, (lb, ub) in zip(P, bxs):
+                    w = ub - lb
+                    a_, b_ = sorted([lb + r.random() * w, lb + r.random() * w])
+                    if b_ - a_ < 1e-6 * w:
+                        a_, b_ = lb + 0.25 * w, lb + 0.75 * w
+                    q["bounds"][0], q["bounds"][1] = a_, b_
+                bxs = [tuple(q["bounds"]) for q in P]
+                p1, p2 = parent_pair(r, bxs)
+                ctx.count("operator_reused_after_box_change")
+                for _ in range(6):
+                    if op == "sbx":
+                        kids = list(o.cross(list(p1), list(p2)))
+                    elif op == "pm":
+                        kids = [o.mutate(list(p1), list(p2))]
+                    elif op == "uniform":
+                        kids = [o.mutate(list(p1))]
+                    else:
+                        kids = [o.mutate(list(p1), r.randint(0, mx))]
+                    if not judge_children(ctx, op + "/after_box_change", kids, bxs, n, wit):
+                        return
         except Exception as e:
             ctx.violation("%s/exception/%s" % (op, type(e).__name__), "%s raised %r for parents inside the box" % (op, e), wit())
             return
@@ -208,6 +231,26 @@ def run_case(ctx, name, params):
         hostile = r.choice([0.0, 0.02, 0.1])
         p, a, err = insitu.run_one(setup, hostile=hostile, on_call=on_call, timeout=10)
         ctx.count("runs")
+        if err is None and not bad and r.random() < 0.4:
+            # zoom in: the declared box is narrowed in place and the same algorithm object runs again
+            for q in p.parameters:
+                lb, ub = q["bounds"]
+                w = ub - lb
+                q["bounds"][0], q["bounds"][1] = lb + 0.2 * w, ub - 0.3 * w
+            bxs[:] = [list(q["bounds"]) for q in p.parameters]
+            import signal as _sg
+            old_h = _sg.signal(_sg.SIGALRM, insitu._alarm)
+            _sg.setitimer(_sg.ITIMER_REAL, 10)
+            try:
+                a.run()
+                ctx.count("second_runs_after_box_narrowing")
+            except insitu.RunTimeout:
+                ctx.count("runs_stopped_by_wall_clock_guard")
+            except Exception as e2:
+                ctx.count("second_runs_aborted")
+            finally:
+                _sg.setitimer(_sg.ITIMER_REAL, 0)
+                _sg.signal(_sg.SIGALRM, old_h)
         wit = lambda: {"algo": algo, "N": setup["N"], "G": setup["G"], "bounds": bxs, "hostile": hostile, "seed": setup["seed"],
                        "first_bad": bad[:2]}
         if bad:
